@@ -149,7 +149,13 @@ func runC04(r *Run) {
 				op.Resum = &resumPlan{KnownTotal: true, Chunks: []int{2}}
 			}
 		case 3:
-			op = gOp{Kind: "Patch", Bucket: "bkt", Name: name, Conds: conds, Body: map[string]interface{}{"contentType": "text/x-patched", "metadata": map[string]string{"q": "1"}}}
+			body := map[string]interface{}{"contentType": "text/x-patched", "metadata": map[string]string{"q": "1"}}
+			if splitmix(uint64(it))&1 == 1 {
+				// the body may name read-only fields; conditions are about the stored object
+				body["metageneration"] = "4"
+				body["generation"] = "4"
+			}
+			op = gOp{Kind: "Patch", Bucket: "bkt", Name: name, Conds: conds, Body: body}
 		case 4:
 			op = gOp{Kind: "Delete", Bucket: "bkt", Name: name, Conds: conds}
 		case 5:
